@@ -27,6 +27,7 @@ import (
 
 	"verif/refcodec"
 	"verif/shim/vctx"
+	"verif/shim/vnet"
 	"verif/shim/vrand"
 	"verif/shim/vtime"
 	"verif/simnet"
@@ -135,27 +136,29 @@ type Inject struct {
 }
 
 type Scn struct {
-	Variant    string             `json:"variant"`
-	First      int                `json:"first"`
-	Last       int                `json:"last"`
-	TimeoutMs  int                `json:"timeout_ms"`
-	DelayMs    int                `json:"delay_ms"`
-	Dest       int                `json:"dest"` // TTL from which the target answers (0 = never)
-	Hops       map[int]HopSpec    `json:"hops,omitempty"`
-	Inject     []Inject           `json:"inject,omitempty"`
-	Faults     []simnet.Fault     `json:"faults,omitempty"`
-	IPIDBase   uint32             `json:"ipid_base"`
-	EchoBase   uint32             `json:"echo_base"`
-	Rand       []uint32           `json:"rand,omitempty"`
-	SynAck     *simnet.SynAckSpec `json:"synack,omitempty"`
-	NoListen   bool               `json:"no_listen,omitempty"` // SACK: target port closed
-	FiltersOff bool               `json:"filters_off,omitempty"`
-	Port       int                `json:"port,omitempty"`
-	Flow       int                `json:"flow,omitempty"` // distinguishes router addresses of concurrent runs
-	Bound      int                `json:"bound"`
-	CancelAtMs int                `json:"cancel_at_ms,omitempty"` // cancel the caller's context (icmp/sack take one)
-	EpsNs      int64              `json:"eps_ns,omitempty"`
-	NoOwnLoop  bool               `json:"no_own_loop,omitempty"`
+	Variant   string             `json:"variant"`
+	First     int                `json:"first"`
+	Last      int                `json:"last"`
+	TimeoutMs int                `json:"timeout_ms"`
+	DelayMs   int                `json:"delay_ms"`
+	Dest      int                `json:"dest"` // TTL from which the target answers (0 = never)
+	Hops      map[int]HopSpec    `json:"hops,omitempty"`
+	Inject    []Inject           `json:"inject,omitempty"`
+	Faults    []simnet.Fault     `json:"faults,omitempty"`
+	IPIDBase  uint32             `json:"ipid_base"`
+	EchoBase  uint32             `json:"echo_base"`
+	Rand      []uint32           `json:"rand,omitempty"`
+	SynAck    *simnet.SynAckSpec `json:"synack,omitempty"`
+	NoListen  bool               `json:"no_listen,omitempty"` // SACK: target port closed
+	// DialBlackhole (SACK): the TCP connect never completes - the SYN is silently dropped, nothing comes back
+	DialBlackhole bool  `json:"dial_blackhole,omitempty"`
+	FiltersOff    bool  `json:"filters_off,omitempty"`
+	Port          int   `json:"port,omitempty"`
+	Flow          int   `json:"flow,omitempty"` // distinguishes router addresses of concurrent runs
+	Bound         int   `json:"bound"`
+	CancelAtMs    int   `json:"cancel_at_ms,omitempty"` // cancel the caller's context (icmp/sack take one)
+	EpsNs         int64 `json:"eps_ns,omitempty"`
+	NoOwnLoop     bool  `json:"no_own_loop,omitempty"`
 	// DirectIP: the capture source hands over IP packets directly (a read can fill the whole buffer)
 	DirectIP bool `json:"direct_ip,omitempty"`
 	// SilentElsewhere: a probe whose TTL has no entry in Hops is not answered either (a TTL the run was never asked to probe)
@@ -714,11 +717,23 @@ func Prepare(script *Script, scns ...*Scn) *simnet.Net {
 	n.FiltersOff = sc0.FiltersOff
 	n.NoOutgoingLoop = sc0.NoOwnLoop
 	n.DirectIP = sc0.DirectIP
+	vnet.Blackhole, vnet.Dials = nil, 0
 	if sc0.EpsNs > 0 {
 		n.EpsNs = sc0.EpsNs
 	}
 	vtime.WallStepAtNs, vtime.WallStepSec = int64(sc0.WallStepAtMs)*1_000_000, int64(sc0.WallStepSec)
 	return n
+}
+
+// BlackholePort declares connects to SackAddr:port black holes for the execution being prepared (vnet.Dialer).
+func BlackholePort(port uint16) {
+	prev := vnet.Blackhole
+	vnet.Blackhole = func(network, address string) bool {
+		if ap, err := netip.ParseAddrPort(address); err == nil && ap.Port() == port && ap.Addr() == SackAddr {
+			return true
+		}
+		return prev != nil && prev(network, address)
+	}
 }
 
 // Listen opens the real listener a SACK scenario needs and returns the port to target.
@@ -727,7 +742,7 @@ func Listen(n *simnet.Net, sc *Scn) (uint16, error) {
 	if sc.SynAck != nil {
 		spec = *sc.SynAck
 	}
-	if sc.NoListen {
+	if sc.NoListen || sc.DialBlackhole {
 		// reserve a port and close it again: nothing listens there
 		l, err := net.ListenTCP("tcp4", &net.TCPAddr{IP: SackAddr.AsSlice()})
 		if err != nil {
@@ -779,7 +794,7 @@ func RunVariant(ctx context.Context, sc *Scn, port uint16) (*result.TracerouteRu
 		// HandshakeTimeout is also the REAL-time limit of the kernel dial to the harness listener: generous, so that a loaded
 		// machine cannot turn it into a spurious failure (it plays no role on the virtual clock before the handshake read)
 		hs := timeout
-		if hs < 3*time.Second {
+		if hs < 3*time.Second && !sc.DialBlackhole {
 			hs = 3 * time.Second
 		}
 		return sack.RunSackTraceroute(ctx, sack.Params{Target: netip.AddrPortFrom(SackAddr, port), HandshakeTimeout: hs, FinTimeout: 500 * time.Millisecond,
@@ -850,6 +865,9 @@ func RunScns(cfg vsched.Config, top ...*Scn) *Result {
 			panic("listen: " + err.Error())
 		}
 		ports[i] = p
+		if sc.DialBlackhole {
+			BlackholePort(p)
+		}
 		if len(n.Listeners) > before {
 			listenerOf[i] = n.Listeners[len(n.Listeners)-1]
 			listenerOf[i].Expect = 1
